@@ -37,8 +37,34 @@ LOG_ALGS = ["omitted", "Auto", "Cholesky", "LU", "Lanczos", "Arnoldi"]
 TR_ALGS = ["omitted", "Auto", "Exact"]
 
 
+def awkward_tridiag(g, n, dt="f8"):
+    """non-singular, well-conditioned tridiagonal matrices whose leading principal minors vanish (or nearly): elimination
+    without row exchanges breaks down on them although the matrix is harmless"""
+    n = max(2, n - n % 2)  # even size
+    kind = g.pick(["zero_diag", "tiny_first", "ones_block"])
+    al = np.ones(n - 1)
+    ga = np.ones(n - 1)
+    if kind == "zero_diag":       # path-graph / hopping matrix: eigenvalues 2 cos(k pi / (n + 1)), none zero for even n
+        be = np.zeros(n)
+    elif kind == "tiny_first":
+        be = 3.0 + np.arange(n) % 2
+        be[0] = 1e-11
+    else:                          # leading block [[1, 1], [1, 1]]
+        be = 3.0 + np.arange(n) % 2
+        be[0] = be[1] = 1.0
+    sg = np.where(np.arange(n - 1) % 3 == 0, -1.0, 1.0)
+    return {"k": "tridiag", "al": gen.enc((al * sg).astype(gen.NPDT[dt])), "be": gen.enc(be.astype(gen.NPDT[dt])), "ga": gen.enc(ga.astype(gen.NPDT[dt]))}
+
+
 @st.composite
 def cases(draw, tier):
+    # (decided by a hash of a drawn integer: Hypothesis favours boundary values, so `integers(1, N) == 1` is far more
+    # frequent than 1 / N and these cases take seconds each)
+    if (((draw(st.integers(0, 2**31 - 1)) + 977) * 2654435761) >> 9) % (600 if tier == "quick" else 300) == 0:
+        # more rows than one probing block of the exact trace (100): tr log A through a Krylov log algorithm
+        return {"mode": "big", "n": draw(st.sampled_from([104, 104, 130])), "seed": draw(st.integers(0, 10**5)),
+                "log_alg": draw(st.sampled_from(["Lanczos", "Arnoldi"])), "trace_alg": draw(st.sampled_from(["Exact", "Auto", "omitted"])),
+                "fn": draw(st.sampled_from(["slogdet", "logdet"]))}
     g = gen.TraitGen(draw, avoid=AVOID | {"fft", "hh"})
     n = g.integer(1, 8)
     depth = g.pick([0, 1, 1, 2, 2, 3])
@@ -66,6 +92,12 @@ def cases(draw, tier):
             tree = {"k": "bd", "ch": [g.t_inv(s, 1) for s in rs], "mult": mult}
     else:
         tree = g.sq(n, trait, depth)
+    if trait != "pd" and g.integer(1, 10) == 1:
+        tree = awkward_tridiag(g, n, g.pick(["f8", "c16"]))
+        if g.boolean():
+            tree = g.pick([lambda t: {"k": "kron", "via": "ctor", "ch": [t, g.t_inv(2, 0)]}, lambda t: {"k": "bd", "ch": [t, g.t_inv(2, 0)], "mult": None},
+                           lambda t: {"k": "scale", "c": {"t": "float", "v": -2.0}, "side": "l", "ch": [t]}])(tree)
+        n = IR.denote(tree).shape[0]
     if g.integer(1, 8) == 1:
         # the lazy inverse returned by cola.linalg.inv as (part of) the operand: det(A^-1) = 1 / det(A)
         # (the inverse of a positive definite operator is positive definite; a product with a general factor is not)
@@ -120,9 +152,43 @@ def scale_leaves(node, sign):
     return node
 
 
+def check_big(case, out):
+    import cola
+    L = cola.linalg
+    n = case["n"]
+    rng = np.random.default_rng(case["seed"])
+    Q, _ = np.linalg.qr(rng.standard_normal((n, n)))
+    M = (Q * (0.3 + rng.random(n))) @ Q.T
+    M = (M + M.T) / 2
+    A = cola.PSD(cola.ops.Dense(M))
+    la = L.Lanczos(max_iters=n + 2, tol=1e-12) if case["log_alg"] == "Lanczos" else L.Arnoldi(max_iters=n, tol=1e-12)
+    kw = {"log_alg": la}
+    if case["trace_alg"] != "omitted":
+        kw["trace_alg"] = {"Exact": L.Exact, "Auto": L.Auto}[case["trace_alg"]]()
+    out.label("mode:big", "log_alg:" + case["log_alg"], "trace_alg:" + case["trace_alg"])
+    out.nontrivial = True
+    site = f"big:{case['log_alg']}:{case['trace_alg']}"
+    rs, rl = np.linalg.slogdet(M)
+    try:
+        if case["fn"] == "slogdet":
+            s_, l = L.slogdet(A, **kw)
+        else:
+            s_, l = None, L.logdet(A, **kw)
+    except Exception as e:
+        out.fail("call", site, oracle.exc_man(e), e)
+        return
+    l = complex(np.asarray(l).reshape(-1)[0])
+    if not np.isfinite(l) or abs(l.real - rl) > 1e-6 * max(1.0, abs(rl), n) or abs(l.imag) > 1e-6:
+        out.fail("logabs", site, "value", f"logabs={l} expected {rl:.10g} (n={n})")
+    if s_ is not None and abs(complex(np.asarray(s_).reshape(-1)[0]) - complex(rs)) > 1e-6:
+        out.fail("sign", site, "value", f"sign={s_} expected {rs}")
+
+
 def check(case, out):
     import cola
     L = cola.linalg
+    if case.get("mode") == "big":
+        return check_big(case, out)
     tree = case["tree"]
     if case.get("leaf_scale"):
         tree = scale_leaves(tree, case["leaf_scale"])
